@@ -163,6 +163,41 @@ class NoPanic:
                 self.field_invariants[(adt, field)] = n
             ctx.extra.setdefault("container_invariants", {})["%s.%s" % (adt, field)] = "len >= %d: %s" % (n, why)
 
+    def closure_param_axioms(self, fn):
+        """A closure handed to an iterator adaptor over `slice.chunks_exact(n)` receives slices of exactly n elements (`chunks(n)`:
+        between 1 and n): length facts about the closure's item parameter."""
+        if "{closure" not in fn.path:
+            return []
+        P, W = self.P, self.W
+        out = []
+        owner = P.fns.get(fn.path.rsplit("::{closure", 1)[0])
+        if owner is None:
+            return out
+        oev = W.ev(owner.path)
+        for bb, t in owner.calls():
+            if fn.path not in (t.get("closures") or []):
+                continue
+            if callee_name(t["fn"].get("path", "")) not in ("map", "for_each", "filter_map", "flat_map", "all", "any", "find_map", "fold", "try_for_each"):
+                continue
+            src = W.expand(oev.call_args(bb)[0])
+            for _ in range(6):
+                if is_call(src) and callee_name(src[1]) in ("take", "skip", "rev", "by_ref", "into_iter", "enumerate", "peekable") and src[2]:
+                    if callee_name(src[1]) == "enumerate":
+                        src = None
+                        break
+                    src = W.expand(src[2][0])
+                    continue
+                break
+            if is_call(src) and callee_name(src[1]) in ("chunks_exact", "chunks") and len(src[2]) == 2 and src[2][1][0] == "int" and src[2][1][1] > 0:
+                item = ("param", fn.path, 2)
+                n = src[2][1][1]
+                if callee_name(src[1]) == "chunks_exact":
+                    out.append(("Eq", ("len", item), ("int", n)))
+                else:
+                    out.append(("Le", ("int", 1), ("len", item)))
+                    out.append(("Le", ("len", item), ("int", n)))
+        return out
+
     # ------------------------------------------------------------------ driver
     def run(self):
         P = self.P
@@ -178,6 +213,7 @@ class NoPanic:
             ev = self.W.ev(p)
             B = Bounds(self.W, fn, ev, pre=pre)
             B.field_min_len = self.field_invariants
+            B.axioms.extend(self.closure_param_axioms(fn))
             self.bounds[p] = B
             self.pre[p] = pre
             self.cursor_model(fn, B)
